@@ -5,7 +5,7 @@ import spfgen as G
 ID = 'C11'
 COQ_TARGETS = ['Props/Properties_C11.vo']
 PROPS_FILES = ['Props/Properties_C11.v']
-THEOREMS = ['C11_check_host', 'C11_check_host_c', 'C11_limit_is_rfc', 'C11_rfc_constants', 'C11_bad_token_clean', 'C11_exp_text_clean', 'C11_received_spf_clean', 'C11_rfc_agreement_refuted', 'C11_rfc_deviation_witnesses']
+THEOREMS = ['C11_check_host', 'C11_check_host_c', 'C11_limit_is_rfc', 'C11_rfc_constants', 'C11_bad_token_clean', 'C11_exp_text_clean', 'C11_received_spf_clean', 'C11_rfc_agreement_refuted', 'C11_rfc_deviation_witnesses', 'C11_rfc_agreement_partial', 'C11_strict_reference_is_rfc']
 ENGINES = [dict(name='spf', c_sources=['spf_h.c'], extract='Extract/Extract_spf.v', driver='spf_driver.ml',
                 glue=('glue.ml', 'glue_z.ml'), accepts=lambda c: c.startswith('c1 '))]
 RULE = ('cases = (sender domain, client address v4/v6, sender, HELO, reverse name, zone); zone = TXT/A/AAAA/MX/PTR answers or injected errors per name '
@@ -131,7 +131,8 @@ def distribution(results):
             d[b] = d.get(b, 0) + 1
             if 'ENULL' not in w: d['spfexp_set'] = d.get('spfexp_set', 0) + 1
         if r['spec'] == 'pre': d['outside_precondition'] = d.get('outside_precondition', 0) + 1
-        if r['spec'] == 'okrfc': d['compared_with_rfc_reference_and_equal'] = d.get('compared_with_rfc_reference_and_equal', 0) + 1
+        if r['spec'] in ('okrfc', 'okrfcp'): d['compared_with_rfc_reference_and_equal'] = d.get('compared_with_rfc_reference_and_equal', 0) + 1
+        if r['spec'] == 'okrfcp': d['inside_the_class_of_C11_rfc_agreement_partial'] = d.get('inside_the_class_of_C11_rfc_agreement_partial', 0) + 1
         if r['spec'] == 'bad': d['known_deviation_from_rfc'] = d.get('known_deviation_from_rfc', 0) + 1
     return d
 
